@@ -173,7 +173,11 @@ def check_all(data, protocol, unsafe=False, ext=False, buffer=False, min_ops=Non
             me, _ = machine(ops)
             errs += me
             for d in dis_check(data):
-                errs.append('C01 ' + d if 'memo' not in d else 'C02 ' + d)
+                # C01 is stated as "accepted by the reference disassembler's symbolic check": a rejection of any kind counts
+                # for it; memo complaints are C02's subject as well
+                if 'memo' in d:
+                    errs.append('C02 ' + d)
+                errs.append('C01 ' + d)
         # C05 (also on the prefix that still decodes when the stream derails later)
         for n, a, pos in ops:
             if TABLE[n].proto > protocol:
